@@ -149,7 +149,7 @@ def check_exit(cx, chk):
                               "%s ignores the Result of a fallible call (`let _ =` / statement call): a failure would go unreported" % short(p),
                               cx.site(b, ds[0][0]))
     chk.ok("C15.exit", "generator Results", {"fallible_call_results_tracked": n})
-    chk.floor("C15.exit", "fallible call results tracked", n, 78)
+    chk.floor("C15.exit", "fallible call results tracked", n, 45)
 
 
 # ----------------------------------------------------------------- restrictions
@@ -188,37 +188,185 @@ def mentions_field(e, name):
 
 _GUARD = {}
 
+
+def body_facts(cx, cg, b, depth=0, seen=None):
+    """Everything a body mentions: field names read, string constants, callee names - closures and (two levels of) crate-local
+    callees included.  Used to recognise *what a guard depends on* independently of how the condition is spelled."""
+    seen = seen if seen is not None else set()
+    if b.path in seen:
+        return set()
+    seen.add(b.path)
+    cache = cx.__dict__.setdefault("_c15_bf", {})
+    key = (b.path, depth)
+    if key in cache:
+        return cache[key]
+    out = set()
+
+    def op(o):
+        if not isinstance(o, dict):
+            return
+        if "str" in o:
+            out.add("str:" + o["str"])
+        if "promoted" in o:
+            pv = b.promoted_value(o["promoted"])
+            if pv is not None:
+                for s_ in walk(pv):
+                    if s_[0] == "const" and s_[1] == "str":
+                        out.add("str:" + str(s_[2]))
+        pl = o.get("place")
+        if pl:
+            for pe in pl["p"]:
+                if pe["k"] == "field" and pe.get("name"):
+                    out.add("field:" + pe["name"])
+    for i in b.reach:
+        blk = b.blocks[i]
+        for st in blk["stmts"]:
+            if st["k"] != "assign":
+                continue
+            rv = st["rv"]
+            for k_ in ("op", "a", "b"):
+                op(rv.get(k_))
+            for o in rv.get("ops", ()):
+                op(o)
+            if "place" in rv:
+                op({"place": rv["place"]})
+            if rv["k"] == "agg" and rv.get("agg") == "closure" and rv.get("def") in cg.fns and depth < 3:
+                cb = cx.body(cg, rv["def"])
+                if cb is not None:
+                    out |= body_facts(cx, cg, cb, depth + 1, seen)
+        t = blk["term"]
+        if t["k"] == "call":
+            f = t["func"]
+            for a_ in t["args"]:
+                op(a_)
+            if not f.get("indirect"):
+                out.add("call:" + last(f["path"]))
+                tgt = f.get("resolved") or f["path"]
+                if tgt in cg.fns and "mir" in cg.fns[tgt] and depth < 2 and "::grammar::generated::" not in tgt:
+                    cb = cx.body(cg, tgt)
+                    if cb is not None and len(cb.reach) < 60:
+                        out |= body_facts(cx, cg, cb, depth + 1, seen)
+        elif t["k"] == "switch":
+            op(t["discr"])
+    cache[key] = out
+    return out
+
+
+def guard_facts(cx, cg, b, bb, extra=None):
+    """Facts the conditions dominating block bb (and the expression `extra`) depend on."""
+    out = set()
+
+    def expr(e):
+        for s_ in b.walk_deep(e):
+            if s_[0] == "field":
+                out.add("field:" + str(s_[2]))
+            elif s_[0] == "const" and s_[1] == "str":
+                out.add("str:" + str(s_[2]))
+            elif s_[0] == "call":
+                out.add("call:" + last(s_[1]))
+                tgt = s_[3] if len(s_) > 3 and s_[3] else s_[1]
+                if tgt in cg.fns and "mir" in cg.fns[tgt] and "::grammar::generated::" not in tgt:
+                    cb = cx.body(cg, tgt)
+                    if cb is not None and len(cb.reach) < 60:
+                        out.update(body_facts(cx, cg, cb, 1))
+            elif s_[0] == "closure" and s_[1] in cg.fns:
+                cb = cx.body(cg, s_[1])
+                if cb is not None:
+                    out.update(body_facts(cx, cg, cb, 1))
+    for (e, v, d) in b.atoms(bb):
+        expr(e)
+        if e[0] == "field" and v in (True, False):
+            out.add("%s:field:%s" % ("true" if v else "false", e[2]))
+    # conditions of enclosing loops / non-dominating guards: every switch from which bb is reachable but its other side is not
+    if extra is not None:
+        expr(extra)
+    return out
+
+
+def reach_from_impl(cx, cg, needle, depth=3):
+    """Paths of generator functions reachable (direct crate-local calls, `depth` levels) from the methods whose path mentions `needle`."""
+    cache = cx.__dict__.setdefault("_c15_reach", {})
+    if needle in cache:
+        return cache[needle]
+    cur = {p for p in cg.fns if needle in p and "mir" in cg.fns[p]}
+
+    def foreign_trait_method(q):
+        # a trait method implemented for another type (the AST dispatch): not part of this type's own logic
+        return mir.qself(q) is not None and needle not in q
+    allp = set(cur)
+    for _ in range(depth):
+        nxt = set()
+        for p in cur:
+            b = cx.body(cg, p)
+            if b is None:
+                continue
+            for i, t in b.calls():
+                f = t["func"]
+                if f.get("indirect"):
+                    continue
+                tgt = f.get("resolved") or f["path"]
+                if tgt in cg.fns and "mir" in cg.fns[tgt] and tgt not in allp and "::grammar::generated::" not in tgt \
+                        and not foreign_trait_method(tgt) and not cg.fns[tgt].get("trait_decl"):
+                    nxt.add(tgt)
+            for q in cg.fns:
+                if q.startswith(p + "::{closure") and q not in allp and "mir" in cg.fns[q]:
+                    nxt.add(q)
+        allp |= nxt
+        cur = nxt
+    cache[needle] = allp
+    return allp
+
+
+def R(scope=None, need=(), forbid=(), flags=None):
+    """A documented restriction is recognised by what the guard of some error return depends on:
+    scope  - the error return lies in a function reachable from the methods of this generator type,
+    need   - facts (field:NAME read, str:CONST compared, call:NAME used) the guard must depend on,
+    forbid - facts that would make it a different restriction."""
+    return {"scope": scope, "need": set(need), "forbid": set(forbid), "flags": flags}
+
+
 RESTRICTIONS = [
-    ("fields inside a negative lookahead", lambda p, at, e: "NegativeLookahead" in p and has_atom(at, lambda x: is_call(x, "is_empty") and any(is_call(s, "get_fields") for s in walk(x)), False)),
-    ("fields inside a positive lookahead", lambda p, at, e: "PositiveLookahead" in p and has_atom(at, lambda x: is_call(x, "is_empty") and any(is_call(s, "get_fields") for s in walk(x)), False)),
-    ("mixing @: with named fields", lambda p, at, e: has_atom(at, lambda x: is_call(x, "any") and True, True) and "generate_normal_rule" in p),
-    ("multi-type @: in optional/closure (arity != One)", lambda p, at, e: has_atom(at, lambda x: (is_call(x, "ne") or is_call(x, "eq")) and mentions_field(x, "arity"), True) or has_atom(at, lambda x: is_call(x, "eq") and mentions_field(x, "arity"), False)),
-    ("@export on a plain override", lambda p, at, e: "generate_override_rule" in p and has_atom(at, lambda x: x[0] == "field" and x[2] == "export", True)),
-    ("@position on a plain override", lambda p, at, e: "generate_override_rule" in p and has_atom(at, lambda x: x[0] == "field" and x[2] == "position", True)),
-    ("@string with @export", lambda p, at, e: has_atom(at, lambda x: x[0] == "field" and x[2] == "export", True) and has_atom(at, lambda x: x[0] == "field" and x[2] == "string", True)),
-    ("a skipping Whitespace rule", lambda p, at, e: has_atom(at, lambda x: is_call(x, "eq") and any(s == ("const", "str", "Whitespace") for s in walk(x)), True) and has_atom(at, lambda x: x[0] == "field" and x[2] == "no_skip_ws", False)),
-    ("@memoize without Clone", lambda p, at, e: has_atom(at, lambda x: is_call(x, "contains") and any(s == ("const", "str", "Clone") for s in walk(x)), False) and "memoize" in _GUARD.get("flags", ())),
-    ("non-ASCII case-insensitive literal", lambda p, at, e: has_atom(at, lambda x: is_call(x, "is_ascii"), False) and has_atom(at, lambda x: is_call(x, "is_some") and mentions_field(x, "insensitive"), True)),
-    ("invalid code point", lambda p, at, e: is_call(e, "ok_or_else", "ok_or") and any(is_call(s, "from_u32") for s in walk(e))),
-    ("include of a missing / @char / @extern rule", lambda p, at, e: is_call(e, "ok_or_else", "ok_or") and any(is_call(s, "find_map", "find") for s in walk(e)) and "IncludeRule" in p),
+    ("fields inside a negative lookahead", R("NegativeLookahead", ["call:get_fields"])),
+    ("fields inside a positive lookahead", R("PositiveLookahead", ["call:get_fields"])),
+    ("mixing @: with named fields", R("rule::", ["str:_override"], ["field:arity", "field:export", "field:position", "field:string"])),
+    ("multi-type @: in optional/closure (arity != One)", R("rule::", ["field:arity"])),
+    ("@export on a plain override", R("rule::", ["true:field:export"], ["true:field:string"])),
+    ("@position on a plain override", R("rule::", ["true:field:position"], ["true:field:string", "true:field:export"])),
+    ("@string with @export", R("rule::", ["true:field:export", "true:field:string"])),
+    ("a skipping Whitespace rule", R("rule::", ["str:Whitespace", "field:no_skip_ws"])),
+    ("@memoize without Clone", R("rule::", ["str:Clone", "field:derives"], flags="memoize")),
+    ("non-ASCII case-insensitive literal", R("StringLiteral", ["call:is_ascii", "field:insensitive"])),
+    ("invalid code point", R("string::", ["call:from_u32"])),
+    ("include of a missing / @char / @extern rule", R("IncludeRule", ["field:name"], [])),
 ]
 
 
 def check_restrict(cx, chk):
+    cg = cx.codegen
     sites = err_sites(cx)
-    for (name, pred) in RESTRICTIONS:
+    facts = {}
+    for (p, b, bb, at, e) in sites:
+        facts[(p, bb)] = guard_facts(cx, cg, b, bb, e)
+    for (name, r) in RESTRICTIONS:
         hits = []
+        scope = reach_from_impl(cx, cg, r["scope"]) if r["scope"] else None
         for (p, b, bb, at, e) in sites:
-            _GUARD["flags"] = flags_guarding(b, bb)
-            if pred(p, at, e):
-                hits.append((p, b, bb))
+            if scope is not None and p not in scope and p.split("::{closure")[0] not in scope:
+                continue
+            fs = facts[(p, bb)]
+            if not r["need"] <= fs or (r["forbid"] & fs):
+                continue
+            if r["flags"] and r["flags"] not in flags_guarding(b, bb):
+                continue
+            hits.append((p, b, bb))
         if hits:
             p, b, bb = hits[0]
-            chk.ok("C15.restrict", name, {"restriction": name, "guarded_error_in": short(p), "site": cx.site(b, bb)})
+            chk.ok("C15.restrict", name, {"restriction": name, "guarded_error_in": short(p), "site": cx.site(b, bb),
+                                          "guard_depends_on": sorted(r["need"])})
         else:
             chk.violation("C15.restrict", name, "no error return in the generator is control-dependent on the facts that define the "
-                          "documented restriction '%s': such grammars are no longer rejected" % name)
-    chk.floor("C15.restrict", "error-return sites in the generator", len(sites), 12)
+                          "documented restriction '%s' (%s): such grammars are no longer rejected" % (name, sorted(r["need"])))
+    chk.floor("C15.restrict", "error-return sites in the generator", len(sites), 7)
 
 
 # ----------------------------------------------------------------- cached
@@ -259,7 +407,7 @@ def check_cached(cx, chk):
             sites["emits the cache lookup"] = (p, b, reads)
     # (3) Clone demanded
     for (p, b, bb, at, e) in err_sites(cx):
-        if has_atom(at, lambda x: is_call(x, "contains") and any(s == ("const", "str", "Clone") for s in walk(x)), False):
+        if {"str:Clone", "field:derives"} <= guard_facts(cx, cg, b, bb, e):
             reads = set()
             for (x, v, d) in at:
                 for s in walk(x):
@@ -293,12 +441,15 @@ def flags_guarding(b, bb):
         if t["k"] != "switch" or bb not in b.reachable_from(i):
             continue
         e, ty = b.switch_info(i)
-        for s in walk(norm(e)):
-            if s[0] == "field" and s[2] in ("memoize", "left_recursive"):
-                # does the true edge lead to bb?
-                for (j, lab) in b.succ[i]:
-                    if mir.truth(lab[1] if lab[1] != "otherwise" else ("not", tuple(v for v, _ in t["targets"]))) is True and bb in b.reachable_from(j):
-                        out.add(s[2])
+        ne = norm(e)
+        direct = {s[2] for s in walk(ne) if s[0] == "field" and s[2] in ("memoize", "left_recursive")}
+        deep = {s[2] for s in b.walk_deep(ne) if s[0] == "field" and s[2] in ("memoize", "left_recursive")}
+        for name in deep:
+            # does the true edge lead to bb?  (for a flag that only feeds a local condition such as
+            # `let needs = a || b;` the local's true edge is what matters)
+            for (j, lab) in b.succ[i]:
+                if mir.truth(lab[1] if lab[1] != "otherwise" else ("not", tuple(v for v, _ in t["targets"]))) is True and bb in b.reachable_from(j):
+                    out.add(name)
     return out
 
 
@@ -382,7 +533,7 @@ def check_panic(cx, chk):
                 chk.violation("C15.panic", tag, "panic-capable construct (%s) in the generator with no recognised guard and no justification "
                               "entry: a grammar could make the compiler panic instead of returning an error" % kind, cx.site(b, i),
                               {"detail": detail})
-    chk.floor("C15.panic", "panic-capable sites examined in the generator", n, 23)
+    chk.floor("C15.panic", "panic-capable sites examined in the generator", n, 12)
 
 
 # ----------------------------------------------------------------- identifiers
@@ -480,7 +631,7 @@ def check_ident(cx, chk):
                           cx.site(b, i), {"sites": len(lst)})
     else:
         chk.ok("C15.ident", "identifier sinks", {"sinks": len(sinks), "validated": validated})
-    chk.floor("C15.ident", "identifier construction sites", len(sinks), 21)
+    chk.floor("C15.ident", "identifier construction sites", len(sinks), 12)
 
 
 # ----------------------------------------------------------------- recursion
@@ -577,12 +728,14 @@ def check_rec(cx, chk):
                     guard = True
         if lookups and not guard:
             p, b, i = lookups[0]
-            chk.violation("C15.rec", "by-name-recursion %s" % "+".join(names[:3]),
+            # the finding is identified by the trait methods of the cycle (helper functions come and go with refactoring)
+            knames = sorted({short(p) for p in comp if mir.qself(p) is not None}) or names
+            chk.violation("C15.rec", "by-name-recursion %s" % "+".join(knames[:3]),
                           "the recursion %s goes through a by-name rule lookup (include) without a cycle guard: it is not bounded by the "
                           "grammar tree, so `A = >A;` (or a longer include cycle) overflows the stack" % names[:6], cx.site(b, i))
         else:
             chk.ok("C15.rec", "scc " + "+".join(names[:3]), {"cycle": names[:8], "kind": "structural recursion over the AST (bounded by the grammar text's nesting)"})
-    chk.floor("C15.rec", "recursive components of the generator", n, 5)
+    chk.floor("C15.rec", "recursive components of the generator", n, 3)
     # depth of the front end: recursive descent without a depth bound
     boot = [i_ for i_ in cx.instances() if i_.name == "bootstrap"]
     if not boot:
